@@ -169,7 +169,7 @@ def gen_admissible(rng, c, evars, svars, syms):
             if admissible(p, c):
                 return p
     for _ in range(12):
-        p = gen_concrete(rng, ev or [min(set(range(9)) - set(c[0]))], sv or [min(set(range(9)) - set(c[1]))], syms, rng.randint(0, 2))
+        p = gen_concrete(rng, ev or [min(set(range(257)) - set(c[0]))], sv or [min(set(range(257)) - set(c[1]))], syms, rng.randint(0, 2))
         if admissible(p, c):
             return p
     p = ('y', rng.choice(syms))
@@ -177,6 +177,10 @@ def gen_admissible(rng, c, evars, svars, syms):
 
 
 # ------------------------------------------------------------------------- models
+class EvalBudget(Exception):
+    """Deterministic work bound of one counterexample search (nested fixpoints and quantifiers are exponential)."""
+
+
 class Model:
     def __init__(self, n, sym, app):
         self.n = n
@@ -184,7 +188,12 @@ class Model:
         self.sym = sym        # id -> bitmask
         self.app = app        # app[a][b] -> bitmask
 
+    budget = 1 << 60
+
     def eval(self, p, re, rs):
+        self.budget -= 1
+        if self.budget < 0:
+            raise EvalBudget()
         k = p[0]
         if k == 'e': return 1 << re[p[1]]
         if k == 's': return rs[p[1]]
@@ -254,11 +263,18 @@ def counterexample(p, model, rng, max_vals=48):
         vals = itertools.product(itertools.product(range(n), repeat=len(ev)), itertools.product(range(1 << n), repeat=len(sv)))
     else:
         vals = ((tuple(rng.randrange(n) for _ in ev), tuple(rng.randrange(1 << n) for _ in sv)) for _ in range(max_vals))
-    for e_vals, s_vals in vals:
-        re = dict(zip(ev, e_vals))
-        rs = dict(zip(sv, s_vals))
-        if model.eval(p, re, rs) != model.full:
-            return {'evars': dict(zip(ev, e_vals)), 'svars': dict(zip(sv, s_vals)), 'value': model.eval(p, dict(zip(ev, e_vals)), dict(zip(sv, s_vals)))}
+    model.budget = 60000
+    try:
+        for e_vals, s_vals in vals:
+            re = dict(zip(ev, e_vals))
+            rs = dict(zip(sv, s_vals))
+            v = model.eval(p, re, rs)
+            if v != model.full:
+                return {'evars': dict(zip(ev, e_vals)), 'svars': dict(zip(sv, s_vals)), 'value': v}
+    except EvalBudget:
+        return None          # inconclusive: never a refutation
+    finally:
+        model.budget = 1 << 60
     return None
 
 
